@@ -38,6 +38,11 @@ func runC11(c *Ctx) {
 	ruleNoDeadStores(c, "C11.14", "storage")
 	ruleSizeWithBytes(c, "C11.15")
 	c17Existence(c, "C11.16")
+	ruleFlushLoopComplete(c, "C11.17")
+	borrow(c, runC12, "C12.2", "C11.18", "storage.(*btreeNode).isFull", "no node over capacity: isFull — the split trigger of insertLeaf/insertInternal — compares the node's whole occupancy (every cell, tombstones included: they take room on the page) with exactly the capacity constants the page layout was computed for (C12.2)")
+	c.Rule("C11.19", "the tree on disk changes only through the flush: the data file (pages and the header with the allocation pointer) is written only inside the exclusive section of the flush — a header or page written on its own makes the file describe an allocation the pages do not have, and after a crash the reloaded tree reaches pages twice or not at all (C04.1)")
+	checkDataFileWrites(c, "C11.19")
+	c02RecordDescribes(c, "C11.20")
 	// advisory: direct indexing
 	for _, name := range []string{"storage.(*btreeNode).updateCell", "storage.(*btreeNode).split", "storage.WALBatch.replay"} {
 		f := c.W.F(name)
